@@ -159,8 +159,8 @@ pub fn run(ctx: &Ctx, replay: Option<&Value>) -> i32 {
             if !p.terminating {
                 return (None, vec![]);
             }
-            let o = run_with_limit(&p.src, &p.stack, None).expect("family program must not panic");
-            o.result.as_ref().expect("family program must succeed with the default limit");
+            let o = run_with_limit(&p.src, &p.stack, None).expect("SUBJECT: family program must not panic");
+            o.result.as_ref().expect("SUBJECT: family program must succeed with the default limit");
             (Some(o.clk), o.mem)
         })
         .collect();
